@@ -12,6 +12,7 @@ library's own single-position matches, that the `stdAll` model reproduces `regex
 and the `compatAll`/`findAll` models reproduce the adapter.
 -/
 import RegexVerif.Lemmas.Scan
+import RegexVerif.Lemmas.Compat
 
 namespace RegexVerif.Props.C06
 open RegexVerif RegexVerif.Scan RegexVerif.Lemmas.Scan
@@ -94,5 +95,392 @@ theorem unset_group_minus_one (off : Nat → Nat) (groups : List (Option (Nat ×
         | some p => obtain ⟨i, l⟩ := p; simpa [matchIndexes, e1, e2] using this
 
 example : matchIndexes (fun r => 2 * r) [some (1, 2), none, some (3, 0)] = [2, 6, -1, -1, 6, 6] := by decide
+
+/-! ## The adapter, method by method (`Model/Compat.lean`)
+
+`compat/regexp.go` is modelled line by line as functions of ONE engine answer `a : Ans` (regexp2's
+sequence `FindStringMatch, FindNextMatch, …` with groups, in rune indices, and the error channel), of
+the input as decoding steps `(rune, bytes)` (a `[]byte` argument may be nil) and of the limit `n`;
+leg Gm ties these functions to the real methods.  The specification `Compat.Std` is Go's `regexp`
+package: its 21 methods as functions of its own search `ff pos` (leftmost match at or after byte
+position `pos`, byte offsets), `FindAll*` through the loop `allMatches`.  The single hypothesis is
+`EnginesAgree d a ff` — no match-time error, left-to-right, regexp2's matches lie inside the input, and
+from position 0 the standard library walks through regexp2's sequence seen in byte offsets
+(`Walk`).  Under it every adapter method returns (does not panic) and its result EQUALS the
+standard library's, including nil-ness.
+
+Sample used by the `example`s: the pattern `a(.)|(é)|y*` on "xa\xffé" — `x`, `a`, the invalid byte
+0xFF (one rune U+FFFD of one byte) and the two-byte rune `é` (`Lemmas.Compat.exSegs`, `exAns`, `exFF`;
+`exAgree : EnginesAgree …` shows the hypothesis is satisfiable, `exSegs_wf` the decoding contract). -/
+
+open RegexVerif.Compat RegexVerif.Utf8 RegexVerif.Lemmas.Compat
+
+example : WF (decoded exSegs) := exSegs_wf
+example : EnginesAgree (decoded exSegs) exAns exFF := exAgree
+
+/-- **The loops of this model are the loops of C07's model.**  When regexp2's sequence is the
+    `iterate` of a `Scan.Engine` (the scan loop of `Runner.scan` iterated by `FindNextMatch`), what
+    `forEachStringMatch` hands to its callback is `Scan.compatAll` and what regexp2's
+    `FindAllRunesIndex` returns is `Scan.findAll` — so `compat_all_eq_std` and C07's theorems about
+    `iterate` speak about the sequence the method theorems below start from. -/
+theorem find_all_loops_eq_scan_model (E : Engine) (n : Nat) (a : Ans) (he : a.err = false)
+    (h : a.ms.map (hitOf a.rtl) = iterate E a.rtl n) (k : Int) :
+    (forEachStringMatch a k fun m => Res.ok (m.index, m.index + m.len)).map nilIfEmpty = .ok (compatAll E a.rtl n k) ∧
+    must (r2FindAllRunesIndex a k) = .ok (findAll E a.rtl n k) := by
+  have hd := delivered_eq_scan E a.rtl n a.ms h k
+  have hmap : (delivered a.rtl a.ms k).map (fun m => (m.index, m.index + m.len)) =
+      (compatForEach E a.rtl n k).map fun m => (m.index, m.index + m.len) := by
+    rw [← hd, List.map_map]; rfl
+  constructor
+  · rw [forEach_closed a he k _ (fun m => (m.index, m.index + m.len)) (fun _ _ => rfl), map_ok, hmap]
+    unfold compatAll
+    by_cases hk : k = 0
+    · subst hk
+      have : compatForEach E a.rtl n 0 = [] := by rw [← hd, delivered_zero]; rfl
+      simp [this, nilIfEmpty_nil]
+    · rw [if_neg hk]; rfl
+  · unfold r2FindAllRunesIndex
+    rw [r2FindAll_closed a he, hmap, Lemmas.Scan.findAll_eq_spec, ← Lemmas.Scan.compatAll_eq_spec]
+    unfold compatAll
+    by_cases hk : k = 0
+    · subst hk
+      have : compatForEach E a.rtl n 0 = [] := by rw [← hd, delivered_zero]; rfl
+      simp [this, nilIfEmpty_nil]
+    · rw [if_neg hk]; rfl
+
+-- `a*` on "baa", left to right: the sequence of `exEngine exL` is (0,0), (1,2), (3,0)
+example : ([⟨0, 0, []⟩, ⟨1, 2, []⟩, ⟨3, 0, []⟩] : List RMatch).map (hitOf false) = iterate (Lemmas.Scan.exEngine Lemmas.Scan.exL) false 3 := by
+  decide
+
+/-- **`Match`, `MatchString`.**  "Reports whether the byte slice / string contains any match": the
+    adapter answers what the standard library answers. -/
+theorem match_methods_eq_std (d : List (Int × Nat)) (a : Ans) (ff : Nat → Option SMatch) (h : EnginesAgree d a ff) :
+    Compat.Match a = .ok (Std.Match ff) ∧ Compat.MatchString a = .ok (Std.Match ff) := by
+  have h0 := walk_head d ff a.ms h.walk
+  have : Compat.MatchString a = .ok (Std.Match ff) := by
+    unfold Compat.MatchString Std.Match
+    rw [isMatch_eq a h.noErr, h0]; simp
+  exact ⟨this, this⟩
+
+example : Compat.MatchString exAns = .ok true ∧ Std.Match exFF = true := by decide
+
+/-- **`FindIndex`, `FindStringIndex`, `Find`, `FindString`.**  The location is the byte pair of the
+    leftmost match, `nil` when there is none; the text is `b[loc[0]:loc[1]]` — the bytes of the input
+    between the two offsets, invalid bytes included, never a re-encoding; `Find` returns nil for no
+    match and for a nil `b`, an empty non-nil slice for an empty match in a non-nil `b`; `FindString`
+    returns `""` for no match. -/
+theorem find_methods_eq_std (b : Option (List (Int × List Nat))) (hwf : WF (decoded (segsOf b))) (a : Ans)
+    (ff : Nat → Option SMatch) (h : EnginesAgree (decoded (segsOf b)) a ff) :
+    Compat.FindIndex a b = .ok (Std.FindIndex ff) ∧
+    Compat.FindStringIndex a (segsOf b) = .ok (Std.FindIndex ff) ∧
+    Compat.Find a b = .ok (Std.Find ff (bytesOfB b)) ∧
+    Compat.FindString a (segsOf b) = .ok (Std.FindString ff (bytesOf (segsOf b))) := by
+  have h0 := walk_head _ ff a.ms h.walk
+  have hv : ∀ m ∈ a.ms, m.Valid (segsOf b).length := by
+    intro m hm; have := h.valid m hm; rwa [decoded_length] at this
+  have hI : Compat.FindStringIndex a (segsOf b) = .ok (Std.FindIndex ff) := by
+    rw [FindStringIndex_closed a _ hwf h.noErr hv]
+    unfold Std.FindIndex
+    rw [h0]; cases a.ms.head? <;> rfl
+  refine ⟨hI, hI, ?_, ?_⟩
+  · rw [Find_closed a b hwf h.noErr hv]
+    unfold Std.Find
+    rw [h0]; cases a.ms.head? <;> rfl
+  · rw [FindString_closed a _ hwf h.noErr hv]
+    unfold Std.FindString
+    rw [h0]; cases a.ms.head? <;> rfl
+
+-- the first match of the sample is the empty match at 0: empty non-nil slice, `""`, `[0 0]`
+example : Compat.Find exAns (some exSegs) = .ok (some []) ∧ Compat.FindIndex exAns (some exSegs) = .ok (some [0, 0]) := by
+  decide
+-- … and on the rest of the sequence (as if the search had started behind it): "a\xff" is the bytes 97, 255
+example : Compat.Find { exAns with ms := exAns.ms.tail } (some exSegs) = .ok (some [97, 255]) ∧
+    Compat.FindString { exAns with ms := exAns.ms.tail } exSegs = .ok [97, 255] ∧
+    Compat.FindIndex { exAns with ms := exAns.ms.tail } (some exSegs) = .ok (some [1, 3]) := by decide
+-- no match: nil, `""`, nil; nil slice: nil even for an (empty) match
+example : Compat.Find ⟨false, [], false⟩ (some exSegs) = .ok none ∧ Compat.FindString ⟨false, [], false⟩ exSegs = .ok [] ∧
+    Compat.Find ⟨false, [⟨0, 0, []⟩], false⟩ none = .ok none ∧ Compat.Find ⟨false, [⟨0, 0, []⟩], false⟩ (some []) = .ok (some []) := by
+  decide
+
+/-- **`FindSubmatchIndex`, `FindStringSubmatchIndex`, `FindSubmatch`, `FindStringSubmatch`.**
+    `result[2*n:2*n+2]` is the byte pair of group `n` (group 0 = the match), `-1, -1` for a group that
+    did not participate; the texts are the corresponding bytes of the input, a nil element (`""` in the
+    string version) for such a group; `nil` when there is no match. -/
+theorem find_submatch_methods_eq_std (b : Option (List (Int × List Nat))) (hwf : WF (decoded (segsOf b))) (a : Ans)
+    (ff : Nat → Option SMatch) (h : EnginesAgree (decoded (segsOf b)) a ff) :
+    Compat.FindSubmatchIndex a b = .ok (Std.FindSubmatchIndex ff) ∧
+    Compat.FindStringSubmatchIndex a (segsOf b) = .ok (Std.FindSubmatchIndex ff) ∧
+    Compat.FindSubmatch a b = .ok (Std.FindSubmatch ff (bytesOfB b)) ∧
+    Compat.FindStringSubmatch a (segsOf b) = .ok (Std.FindStringSubmatch ff (bytesOf (segsOf b))) := by
+  have h0 := walk_head _ ff a.ms h.walk
+  have hv : ∀ m ∈ a.ms, m.Valid (segsOf b).length := by
+    intro m hm; have := h.valid m hm; rwa [decoded_length] at this
+  have hI : Compat.FindStringSubmatchIndex a (segsOf b) = .ok (Std.FindSubmatchIndex ff) := by
+    rw [FindStringSubmatchIndex_closed a _ hwf h.noErr hv]
+    unfold Std.FindSubmatchIndex
+    rw [h0]; cases a.ms.head? <;> rfl
+  refine ⟨hI, hI, ?_, ?_⟩
+  · rw [FindSubmatch_closed a b hwf h.noErr hv]
+    unfold Std.FindSubmatch
+    rw [h0]; cases a.ms.head? <;> rfl
+  · rw [FindStringSubmatch_closed a _ hwf h.noErr hv]
+    unfold Std.FindStringSubmatch
+    rw [h0]; cases a.ms.head? <;> rfl
+
+-- "a\xff" with group 1 = the invalid byte, group 2 unset: `[1 3 2 3 -1 -1]`, texts [97 255], [255], nil / ""
+example : Compat.FindSubmatchIndex { exAns with ms := exAns.ms.tail } (some exSegs) = .ok (some [1, 3, 2, 3, -1, -1]) ∧
+    Compat.FindSubmatch { exAns with ms := exAns.ms.tail } (some exSegs) = .ok (some [some [97, 255], some [255], none]) ∧
+    Compat.FindStringSubmatch { exAns with ms := exAns.ms.tail } exSegs = .ok (some [[97, 255], [255], []]) := by decide
+
+/-- **`MatchReader`, `FindReaderIndex`, `FindReaderSubmatchIndex`.**  `readRunes` keeps what the
+    reader delivered — runes and sizes exactly as `ReadRune` reported them, for an invalid byte the
+    `(U+FFFD, 1)` a `strings.Reader` reports — and treats ANY error of `ReadRune` as the end of the
+    text (`r.fail` is irrelevant, the `must` behind it never panics).  Offsets are byte offsets into
+    what was READ: `offsets[i]` = the sum of the first `i` reported sizes (`off r.items`), whatever the
+    sizes are — no decoding contract is assumed.  If the engines agree on the text read (`d := r.items`)
+    the three methods return what the standard library returns. -/
+theorem reader_methods_eq_std (r : Reader) (a : Ans) (ff : Nat → Option SMatch) (h : EnginesAgree r.items a ff) :
+    Compat.MatchReader a r = .ok (Std.Match ff) ∧
+    Compat.FindReaderIndex a r = .ok (Std.FindIndex ff) ∧
+    Compat.FindReaderSubmatchIndex a r = .ok (Std.FindSubmatchIndex ff) := by
+  have h0 := walk_head _ ff a.ms h.walk
+  refine ⟨?_, ?_, ?_⟩
+  · rw [MatchReader_closed a r h.noErr]; unfold Std.Match; rw [h0]; simp
+  · rw [FindReaderIndex_closed a r h.noErr h.valid]
+    unfold Std.FindIndex
+    rw [h0]; cases a.ms.head? <;> rfl
+  · rw [FindReaderSubmatchIndex_closed a r h.noErr h.valid]
+    unfold Std.FindSubmatchIndex
+    rw [h0]; cases a.ms.head? <;> rfl
+
+/-- … spelled out: the pair `FindReaderIndex` returns for the first match `m` is the sum of the sizes
+    reported for the runes before `m` and before its end. -/
+theorem reader_offsets_are_sums_of_reported_sizes (r : Reader) (a : Ans) (m : RMatch) (rest : List RMatch)
+    (he : a.err = false) (hms : a.ms = m :: rest) (hv : ∀ m ∈ a.ms, m.Valid r.items.length) :
+    Compat.FindReaderIndex a r =
+      .ok (some [((((r.items.map (·.2)).take m.index).sum : Nat) : Int),
+                 ((((r.items.map (·.2)).take (m.index + m.len)).sum : Nat) : Int)]) := by
+  rw [FindReaderIndex_closed a r he hv, hms]
+  rfl
+
+-- a reader over the sample that reports the sizes 1, 2, 1, 5 (and ends with a non-EOF error): "a?" at rune 1..3
+example : Compat.FindReaderIndex ⟨false, [⟨1, 2, []⟩], false⟩ ⟨[(120, 1), (97, 2), (0xFFFD, 1), (98, 5)], true⟩ = .ok (some [1, 4]) := by
+  decide
+example : Compat.FindReaderSubmatchIndex { exAns with ms := exAns.ms.tail } ⟨decoded exSegs, false⟩ = .ok (some [1, 3, 2, 3, -1, -1]) := by
+  decide
+
+/-- **What `allMatches` delivers, as documented.**  Under `EnginesAgree` the standard library's loop
+    delivers regexp2's sequence (in byte offsets) minus the "empty matches abutting a preceding
+    match", truncated to "at most n matches" — all of them for a negative `n`, none for `n = 0`. -/
+theorem all_matches_as_documented (d : List (Int × Nat)) (hwf : WF d) (a : Ans) (ff : Nat → Option SMatch)
+    (h : EnginesAgree d a ff) (n : Int) :
+    Std.allMatches ff d n = (takeK n (dropAbutting false none a.ms)).map (toStd d) ∧
+    (n = 0 → Std.allMatches ff d n = []) ∧
+    (n < 0 → Std.allMatches ff d n = (dropAbutting false none a.ms).map (toStd d)) ∧
+    (n > 0 → Std.allMatches ff d n = ((dropAbutting false none a.ms).take n.toNat).map (toStd d)) := by
+  have := allMatches_eq d hwf a ff h n
+  unfold delivered at this
+  refine ⟨this, ?_, ?_, ?_⟩
+  · intro hn; rw [this, hn, takeK_zero]; rfl
+  · intro hn; rw [this]; simp [takeK, hn]
+  · intro hn; rw [this]; have : ¬ n < 0 := by omega
+    simp [takeK, this]
+
+-- the empty match at rune 4 abuts "é" (3..4) and is dropped; the empty match at 0 is kept
+example : dropAbutting false none exAns.ms = exAns.ms.take 3 := by decide
+example : Std.allMatches exFF (decoded exSegs) (-1) = (exAns.ms.take 3).map (toStd (decoded exSegs)) := by decide
+example : Std.allMatches exFF (decoded exSegs) 2 = (exAns.ms.take 2).map (toStd (decoded exSegs)) := by decide
+
+/-- **`FindAllIndex`, `FindAllStringIndex`** (regexp2's `findAllRunesIndex` behind both, with the
+    `bytesToRunesAndOffsets` table resp. the `newStringByteMapper` delta table for the offsets): for
+    every `n` — positive, zero, negative — the byte pairs of exactly the matches `allMatches`
+    delivers, `nil` when there is none. -/
+theorem find_all_index_methods_eq_std (b : Option (List (Int × List Nat))) (hwf : WF (decoded (segsOf b))) (a : Ans)
+    (ff : Nat → Option SMatch) (h : EnginesAgree (decoded (segsOf b)) a ff) (n : Int) :
+    Compat.FindAllIndex a b n = .ok (Std.FindAllIndex ff (decoded (segsOf b)) n) ∧
+    Compat.FindAllStringIndex a (segsOf b) n = .ok (Std.FindAllIndex ff (decoded (segsOf b)) n) := by
+  have hv : ∀ m ∈ a.ms, m.Valid (segsOf b).length := by
+    intro m hm; have := h.valid m hm; rwa [decoded_length] at this
+  have hS : Std.FindAllIndex ff (decoded (segsOf b)) n =
+      nilIfEmpty ((delivered false a.ms n).map (spanB (decoded (segsOf b)))) := by
+    unfold Std.FindAllIndex
+    rw [allMatches_eq _ hwf a ff h n, List.map_map]; rfl
+  rw [hS, ← h.ltr]
+  exact ⟨FindAllIndex_closed a b h.noErr hv n, FindAllStringIndex_closed a _ hwf h.noErr hv n⟩
+
+example : Compat.FindAllIndex exAns (some exSegs) (-1) = .ok (some [[0, 0], [1, 3], [3, 5]]) ∧
+    Compat.FindAllStringIndex exAns exSegs (-1) = .ok (some [[0, 0], [1, 3], [3, 5]]) ∧
+    Std.FindAllIndex exFF (decoded exSegs) (-1) = some [[0, 0], [1, 3], [3, 5]] := by decide
+example : Compat.FindAllIndex exAns (some exSegs) 0 = .ok none ∧ Compat.FindAllIndex exAns (some exSegs) 2 = .ok (some [[0, 0], [1, 3]]) ∧
+    Compat.FindAllIndex ⟨false, [], false⟩ (some exSegs) 2 = .ok none := by decide
+
+/-- **`FindAll`, `FindAllString`**: the texts of the same matches, each the bytes of the input between
+    its two offsets (a nil element only for a nil `b`); `nil` when nothing is delivered — in particular
+    for `n = 0` and for no match, never an empty non-nil slice. -/
+theorem find_all_text_methods_eq_std (b : Option (List (Int × List Nat))) (hwf : WF (decoded (segsOf b))) (a : Ans)
+    (ff : Nat → Option SMatch) (h : EnginesAgree (decoded (segsOf b)) a ff) (n : Int) :
+    Compat.FindAll a b n = .ok (Std.FindAll ff (decoded (segsOf b)) (bytesOfB b) n) ∧
+    Compat.FindAllString a (segsOf b) n = .ok (Std.FindAllString ff (decoded (segsOf b)) (bytesOf (segsOf b)) n) := by
+  have hv : ∀ m ∈ a.ms, m.Valid (segsOf b).length := by
+    intro m hm; have := h.valid m hm; rwa [decoded_length] at this
+  constructor
+  · rw [FindAll_closed a b h.noErr hv n, h.ltr]
+    unfold Std.FindAll
+    rw [allMatches_eq _ hwf a ff h n, List.map_map]; rfl
+  · rw [FindAllString_closed a _ hwf h.noErr hv n, h.ltr]
+    unfold Std.FindAllString
+    rw [allMatches_eq _ hwf a ff h n, List.map_map]; rfl
+
+example : Compat.FindAll exAns (some exSegs) (-1) = .ok (some [some [], some [97, 255], some [195, 169]]) ∧
+    Compat.FindAllString exAns exSegs (-1) = .ok (some [[], [97, 255], [195, 169]]) ∧
+    Compat.FindAllString exAns exSegs 0 = .ok none ∧ Compat.FindAllString ⟨false, [], false⟩ exSegs 3 = .ok none := by decide
+
+/-- **`FindAllSubmatchIndex`, `FindAllStringSubmatchIndex`, `FindAllSubmatch`,
+    `FindAllStringSubmatch`** (`forEachStringMatch`): per delivered match the full index slice with
+    `-1` pairs resp. the texts with nil / `""` elements, for every `n`; `nil` when nothing is delivered. -/
+theorem find_all_submatch_methods_eq_std (b : Option (List (Int × List Nat))) (hwf : WF (decoded (segsOf b))) (a : Ans)
+    (ff : Nat → Option SMatch) (h : EnginesAgree (decoded (segsOf b)) a ff) (n : Int) :
+    Compat.FindAllSubmatchIndex a b n = .ok (Std.FindAllSubmatchIndex ff (decoded (segsOf b)) n) ∧
+    Compat.FindAllStringSubmatchIndex a (segsOf b) n = .ok (Std.FindAllSubmatchIndex ff (decoded (segsOf b)) n) ∧
+    Compat.FindAllSubmatch a b n = .ok (Std.FindAllSubmatch ff (decoded (segsOf b)) (bytesOfB b) n) ∧
+    Compat.FindAllStringSubmatch a (segsOf b) n =
+      .ok (Std.FindAllStringSubmatch ff (decoded (segsOf b)) (bytesOf (segsOf b)) n) := by
+  have hv : ∀ m ∈ a.ms, m.Valid (segsOf b).length := by
+    intro m hm; have := h.valid m hm; rwa [decoded_length] at this
+  have hI : Compat.FindAllStringSubmatchIndex a (segsOf b) n = .ok (Std.FindAllSubmatchIndex ff (decoded (segsOf b)) n) := by
+    rw [FindAllStringSubmatchIndex_closed a _ hwf h.noErr hv n, h.ltr]
+    unfold Std.FindAllSubmatchIndex
+    rw [allMatches_eq _ hwf a ff h n, List.map_map]; rfl
+  refine ⟨hI, hI, ?_, ?_⟩
+  · rw [FindAllSubmatch_closed a b hwf h.noErr hv n, h.ltr]
+    unfold Std.FindAllSubmatch
+    rw [allMatches_eq _ hwf a ff h n, List.map_map]; rfl
+  · rw [FindAllStringSubmatch_closed a _ hwf h.noErr hv n, h.ltr]
+    unfold Std.FindAllStringSubmatch
+    rw [allMatches_eq _ hwf a ff h n, List.map_map]; rfl
+
+example : Compat.FindAllSubmatchIndex exAns (some exSegs) (-1) =
+      .ok (some [[0, 0, -1, -1, -1, -1], [1, 3, 2, 3, -1, -1], [3, 5, -1, -1, 3, 5]]) ∧
+    Compat.FindAllSubmatch exAns (some exSegs) 2 = .ok (some [[some [], none, none], [some [97, 255], some [255], none]]) ∧
+    Compat.FindAllStringSubmatch exAns exSegs 3 = .ok (some [[[], [], []], [[97, 255], [255], []], [[195, 169], [], [195, 169]]]) ∧
+    Std.FindAllSubmatchIndex exFF (decoded exSegs) (-1) = some [[0, 0, -1, -1, -1, -1], [1, 3, 2, 3, -1, -1], [3, 5, -1, -1, 3, 5]] := by
+  decide
+
+/-- **The text of a capture is the input's own bytes.**  `captureString` (behind `FindString`,
+    `FindAllString`, `FindStringSubmatch`, `FindAllStringSubmatch`) returns exactly the bytes of the
+    decoding steps `c.1 … c.1+c.2-1` of the input — an invalid byte stays that byte, it is not
+    re-encoded as the three bytes of U+FFFD (what `string(runes)` would give; /repo fix 5bf4388). -/
+theorem captured_text_is_input_bytes (segs : List (Int × List Nat)) (hwf : WF (decoded segs)) (c : Nat × Nat)
+    (h : c.1 + c.2 ≤ segs.length) :
+    captureString segs c = .ok (bytesOf ((segs.drop c.1).take c.2)) := by
+  rw [captureString_eq segs hwf c h, textS_span]
+
+example : captureString exSegs (1, 3) = .ok [97, 255, 195, 169] := by decide
+
+/-- **The adapter panics only with a match-time error.**  For ANY engine answer without error whose
+    matches lie inside the input — either direction, agreement with the standard library not assumed —
+    none of the 21 methods panics: no slice expression and no table lookup of the adapter goes out of
+    range, and every `must` sees a nil error (readers: also when the reader ends with a non-EOF error). -/
+theorem adapter_returns_without_engine_error (b : Option (List (Int × List Nat))) (hwf : WF (decoded (segsOf b)))
+    (a : Ans) (he : a.err = false) (hv : ∀ m ∈ a.ms, m.Valid (segsOf b).length)
+    (r : Reader) (hr : ∀ m ∈ a.ms, m.Valid r.items.length) (n : Int) :
+    Compat.Match a ≠ .panic ∧ Compat.MatchString a ≠ .panic ∧ Compat.MatchReader a r ≠ .panic ∧
+    Compat.Find a b ≠ .panic ∧ Compat.FindIndex a b ≠ .panic ∧ Compat.FindString a (segsOf b) ≠ .panic ∧
+    Compat.FindStringIndex a (segsOf b) ≠ .panic ∧ Compat.FindReaderIndex a r ≠ .panic ∧
+    Compat.FindSubmatch a b ≠ .panic ∧ Compat.FindSubmatchIndex a b ≠ .panic ∧
+    Compat.FindStringSubmatch a (segsOf b) ≠ .panic ∧ Compat.FindStringSubmatchIndex a (segsOf b) ≠ .panic ∧
+    Compat.FindReaderSubmatchIndex a r ≠ .panic ∧
+    Compat.FindAll a b n ≠ .panic ∧ Compat.FindAllIndex a b n ≠ .panic ∧ Compat.FindAllString a (segsOf b) n ≠ .panic ∧
+    Compat.FindAllStringIndex a (segsOf b) n ≠ .panic ∧ Compat.FindAllSubmatch a b n ≠ .panic ∧
+    Compat.FindAllSubmatchIndex a b n ≠ .panic ∧ Compat.FindAllStringSubmatch a (segsOf b) n ≠ .panic ∧
+    Compat.FindAllStringSubmatchIndex a (segsOf b) n ≠ .panic := by
+  have hM : Compat.MatchString a ≠ .panic := by
+    unfold Compat.MatchString; rw [isMatch_eq a he]; exact fun h => nomatch h
+  refine ⟨hM, hM, ?_, ?_, ?_, ?_, ?_, ?_, ?_, ?_, ?_, ?_, ?_, ?_, ?_, ?_, ?_, ?_, ?_, ?_, ?_⟩
+  · rw [MatchReader_closed a r he]; exact fun h => nomatch h
+  · rw [Find_closed a b hwf he hv]; exact fun h => nomatch h
+  · unfold Compat.FindIndex; rw [FindStringIndex_closed a _ hwf he hv]; exact fun h => nomatch h
+  · rw [FindString_closed a _ hwf he hv]; exact fun h => nomatch h
+  · rw [FindStringIndex_closed a _ hwf he hv]; exact fun h => nomatch h
+  · rw [FindReaderIndex_closed a r he hr]; exact fun h => nomatch h
+  · rw [FindSubmatch_closed a b hwf he hv]; exact fun h => nomatch h
+  · unfold Compat.FindSubmatchIndex; rw [FindStringSubmatchIndex_closed a _ hwf he hv]; exact fun h => nomatch h
+  · rw [FindStringSubmatch_closed a _ hwf he hv]; exact fun h => nomatch h
+  · rw [FindStringSubmatchIndex_closed a _ hwf he hv]; exact fun h => nomatch h
+  · rw [FindReaderSubmatchIndex_closed a r he hr]; exact fun h => nomatch h
+  · rw [FindAll_closed a b he hv n]; exact fun h => nomatch h
+  · rw [FindAllIndex_closed a b he hv n]; exact fun h => nomatch h
+  · rw [FindAllString_closed a _ hwf he hv n]; exact fun h => nomatch h
+  · rw [FindAllStringIndex_closed a _ hwf he hv n]; exact fun h => nomatch h
+  · rw [FindAllSubmatch_closed a b hwf he hv n]; exact fun h => nomatch h
+  · unfold Compat.FindAllSubmatchIndex; rw [FindAllStringSubmatchIndex_closed a _ hwf he hv n]; exact fun h => nomatch h
+  · rw [FindAllStringSubmatch_closed a _ hwf he hv n]; exact fun h => nomatch h
+  · rw [FindAllStringSubmatchIndex_closed a _ hwf he hv n]; exact fun h => nomatch h
+
+-- right-to-left `a*` on "baa" (D11): sequence (1,2), (1,0), (0,0); the empty match at 1 abuts the start of (1,2)
+example : Compat.FindAllStringIndex ⟨true, [⟨1, 2, []⟩, ⟨1, 0, []⟩, ⟨0, 0, []⟩], false⟩ [(98, [98]), (97, [97]), (97, [97])] (-1) =
+    .ok (some [[1, 3], [0, 0]]) := by decide
+
+/-- **… and with one it does panic** (`must`): when the engine's first call returns an error, every
+    method panics — except the find-all methods with `n = 0`, which return nil without asking the
+    engine.  (Later in the sequence: an error behind the `n`-th delivered match is never seen, the loops
+    stop before the next call; see the example.) -/
+theorem engine_error_panics (b : Option (List (Int × List Nat))) (a : Ans) (hms : a.ms = []) (he : a.err = true)
+    (r : Reader) (n : Int) :
+    Compat.Match a = .panic ∧ Compat.MatchString a = .panic ∧ Compat.MatchReader a r = .panic ∧
+    Compat.Find a b = .panic ∧ Compat.FindIndex a b = .panic ∧ Compat.FindString a (segsOf b) = .panic ∧
+    Compat.FindStringIndex a (segsOf b) = .panic ∧ Compat.FindReaderIndex a r = .panic ∧
+    Compat.FindSubmatch a b = .panic ∧ Compat.FindSubmatchIndex a b = .panic ∧
+    Compat.FindStringSubmatch a (segsOf b) = .panic ∧ Compat.FindStringSubmatchIndex a (segsOf b) = .panic ∧
+    Compat.FindReaderSubmatchIndex a r = .panic ∧
+    (Compat.FindAll a b n = if n = 0 then .ok none else .panic) ∧
+    (Compat.FindAllIndex a b n = if n = 0 then .ok none else .panic) ∧
+    (Compat.FindAllString a (segsOf b) n = if n = 0 then .ok none else .panic) ∧
+    (Compat.FindAllStringIndex a (segsOf b) n = if n = 0 then .ok none else .panic) ∧
+    (Compat.FindAllSubmatch a b n = if n = 0 then .ok none else .panic) ∧
+    (Compat.FindAllSubmatchIndex a b n = if n = 0 then .ok none else .panic) ∧
+    (Compat.FindAllStringSubmatch a (segsOf b) n = if n = 0 then .ok none else .panic) ∧
+    (Compat.FindAllStringSubmatchIndex a (segsOf b) n = if n = 0 then .ok none else .panic) := by
+  have hF : findFirst a = .panic := by simp [findFirst, nextCall, hms, he, must]
+  have hI : must (r2IsMatch a) = .panic := by simp [r2IsMatch, nextCall, hms, he, must, Call.map]
+  have hL : ∀ mk, must (r2FindAll a mk n) = if n = 0 then .ok none else .panic := by
+    intro mk
+    unfold r2FindAll
+    by_cases hn : n = 0
+    · simp [hn, must]
+    · simp [hn, hms, he, r2FindAllLoop, must, Call.map]
+  have hE : ∀ {β : Type} (f : RMatch → Res β), forEachStringMatch a n f = .panic := by
+    intro β f; simp [forEachStringMatch, hms, he, forEachLoop]
+  have hAI : Compat.FindAllIndex a b n = if n = 0 then .ok none else .panic := by
+    unfold Compat.FindAllIndex r2FindAllRunesIndex
+    simp only []
+    rw [hL]; split <;> rfl
+  have hSI : Compat.FindAllStringSubmatchIndex a (segsOf b) n = if n = 0 then .ok none else .panic := by
+    unfold Compat.FindAllStringSubmatchIndex; rw [hE]; split <;> rfl
+  refine ⟨hI, hI, ?_, ?_, ?_, ?_, ?_, ?_, ?_, ?_, ?_, ?_, ?_, ?_, hAI, ?_, ?_, ?_, hSI, ?_, hSI⟩
+  · unfold Compat.MatchReader; rw [readRunesR_eq, bind_ok, hI]
+  · unfold Compat.Find Compat.FindIndex Compat.FindStringIndex; rw [hF]; rfl
+  · unfold Compat.FindIndex Compat.FindStringIndex; rw [hF]; rfl
+  · unfold Compat.FindString; rw [hF]; rfl
+  · unfold Compat.FindStringIndex; rw [hF]; rfl
+  · unfold Compat.FindReaderIndex; rw [readRunesR_eq, bind_ok, hF]; rfl
+  · unfold Compat.FindSubmatch Compat.FindSubmatchIndex Compat.FindStringSubmatchIndex; rw [hF]; rfl
+  · unfold Compat.FindSubmatchIndex Compat.FindStringSubmatchIndex; rw [hF]; rfl
+  · unfold Compat.FindStringSubmatch; rw [hF]; rfl
+  · unfold Compat.FindStringSubmatchIndex; rw [hF]; rfl
+  · unfold Compat.FindReaderSubmatchIndex; rw [readRunesR_eq, bind_ok, hF]; rfl
+  · unfold Compat.FindAll; rw [hAI]; split <;> rfl
+  · unfold Compat.FindAllString; rw [hE]; split <;> rfl
+  · unfold Compat.FindAllStringIndex r2FindAllStringIndex
+    simp only []
+    rw [hL]; split <;> rfl
+  · unfold Compat.FindAllSubmatch Compat.FindAllSubmatchIndex; rw [hSI]; split <;> rfl
+  · unfold Compat.FindAllStringSubmatch; rw [hE]; split <;> rfl
+
+-- an error after the second match: `n = 2` stops before the failing call, `n = 3` and `n = -1` reach it
+example : Compat.FindAllString { exAns with ms := exAns.ms.take 2, err := true } exSegs 2 = .ok (some [[], [97, 255]]) ∧
+    Compat.FindAllString { exAns with ms := exAns.ms.take 2, err := true } exSegs 3 = .panic ∧
+    Compat.FindAllStringIndex { exAns with ms := exAns.ms.take 2, err := true } exSegs (-1) = .panic ∧
+    Compat.FindString { exAns with ms := exAns.ms.take 2, err := true } exSegs = .ok [] := by decide
 
 end RegexVerif.Props.C06
